@@ -64,7 +64,8 @@ def family(stg):
     if isinstance(stg.exc, Hang):
         return 'internal'
     name = stg.exc_name
-    if stg.diagnosed and (name in shell.LIB_ERRORS):
+    # one of the library's own error types: a class defined by dznpy (whatever it is called), raised by dznpy
+    if stg.diagnosed and (name in shell.LIB_ERRORS or type(stg.exc).__module__.split('.')[0] == 'dznpy'):
         return 'library'
     if stg.diagnosed and name in ('ValueError', 'TypeError') and str(stg.exc).strip():
         return 'worded'
